@@ -83,6 +83,11 @@ def main(argv):
     # build a variable TTFont from the designspace document
     # TODO: Use ufo2ft.compileVariableCFF2 for CFF
     vf = ufo2ft.compileVariableTTF(designspace)
+
+    # the master ufos keep glyph names through compilation, as static builds do
+    if not font_config.keep_glyph_names:
+        vf["post"].formatType = 3  # no glyph names
+
     vf.save(font_config.output_file)
 
 
